@@ -35,6 +35,27 @@ def selftest(V):
 
 
 def replay(V, path):
-    item = json.load(open(path))
-    print(json.dumps(item, indent=1))
-    return 0
+    """Re-judges one saved violation: a rejected trace event is validated again by its trace specification (exit 1 if it is
+    still rejected, 0 if the specification now explains it); a replay mismatch is printed with the expected and observed step."""
+    doc = json.load(open(path))
+    item = doc["item"]
+    print(json.dumps(item, indent=1)[:4000])
+    if "module" in item and "event" in item:
+        d = os.path.join(V.WORK, "replay")
+        os.makedirs(d, exist_ok=True)
+        f = os.path.join(d, "%s.0001.ndjson" % item["module"])
+        # stateful trace modules need the whole chunk up to the event; use it when it still exists
+        lines = None
+        if os.path.exists(item.get("chunk", "")):
+            allv = open(item["chunk"]).read().splitlines()
+            if len(allv) >= item["index"] and json.loads(allv[item["index"] - 1]) == item["event"]:
+                lines = allv[:item["index"]]
+        lines = lines or [json.dumps(item["event"])]
+        open(f, "w").write("\n".join(lines) + "\n")
+        cfg = PROPS.get(doc["property"], {}).get("trace_cfgs", {}).get(item["module"], "Trace.cfg")
+        r = V.run_tlc(item["module"], cfg, env={"TRACE": f}, timeout=600)
+        rejected = ('<<"REJECT", %d>>' % len(lines)) in r["out"]
+        print("REPLAY property=%s module=%s: the event is %s by the specification" % (doc["property"], item["module"], "REJECTED" if rejected else "accepted"))
+        return 1 if rejected else 0
+    print("REPLAY property=%s: a replay/child-process mismatch; re-run the check to reproduce it against the current code" % doc["property"])
+    return 1
